@@ -229,6 +229,24 @@ def r11_3_dump_writer_reader(repo: Repo, rep: Report):
     t = src(sl)
     ok = "dump(path_ctx)" in t and "solver_command = args.resolved_solver_command + [smt2_filename]" in t and "smt2_filename) = (path_ctx.args, str(path_ctx.dump_file))" in t.replace("args, smt2_filename = path_ctx.args, str(path_ctx.dump_file)", "smt2_filename) = (path_ctx.args, str(path_ctx.dump_file))")
     rep.check("R11.3", "dump(path_ctx)" in t and "[smt2_filename]" in t, ms, sl, "solve_low_level: dump(path_ctx) then solver on smt2_filename", "the solver must be run on the dumped query")
+    # every run of the solver is preceded by writing this path's query: an existing file may belong to another path
+    dumps = [c for c in body_walk(sl) if isinstance(c, ast.Call) and call_name(c) == "dump"]
+    for c in dumps:
+        gs = guard_set(ms, c)
+        rep.check("R11.3", not gs, ms, c, f"solve_low_level: {src(c)} under {sorted(gs)}", "the query file must be (re)written unconditionally before the solver reads it: a file left by another path, depth or run would be solved instead")
+
+    def tr(node, state):
+        out = []
+        for n in ast.walk(node) if not isinstance(node, (ast.FunctionDef, ast.AsyncFunctionDef)) else []:
+            if isinstance(n, ast.Call) and call_name(n) == "dump":
+                out.append("dumped")
+            if isinstance(n, ast.Call) and call_name(n) in ("PopenFuture", "submit") and "dumped" not in state and "dumped" not in out:
+                out.append("solver-before-dump")
+        return out
+
+    exits = function_exits(sl, tr, calls_raise=False)
+    bad = [s for sts in exits.values() for s in sts if "solver-before-dump" in s]
+    rep.check("R11.3", not bad, ms, sl, "solve_low_level: on every path dump(path_ctx) precedes the creation/submission of the solver process", "a path starts the solver without having written the query")
 
 
 def r11_4_refine(repo: Repo, rep: Report):
